@@ -285,8 +285,27 @@ fn rand_case(depth: u32) -> impl Strategy<Value = RandCase> {
     })
 }
 
+/// Deep nesting: a small expression wrapped 20-150 times in parentheses and rounding calls, with operators
+/// applied on the way out, so that whatever the parser keeps per nesting level is exercised far beyond what the
+/// short enumerated expressions reach.
+fn deep_nesting() -> impl Strategy<Value = RandCase> {
+    (1i64..=9, prop::collection::vec((0u8..6, 1i64..=9), 20..=150), any::<u64>(), prop_oneof![Just(0u64), Just(1), Just(5)]).prop_map(|(seed, layers, h, r)| {
+        let mut e = Expr::num(seed);
+        for (kind, k) in layers {
+            e = match kind {
+                0 | 1 => Expr::Paren(Box::new(e)),
+                2 => Expr::Call("round", vec![e]),
+                3 => Expr::bin(Op::Add, Expr::num(k), Expr::Paren(Box::new(e))),
+                4 => Expr::bin(Op::Sub, Expr::Paren(Box::new(e)), Expr::num(k)),
+                _ => Expr::Call("floor", vec![Expr::bin(Op::Add, e, Expr::Num(Lit::from_text("0.5")))]),
+            };
+        }
+        RandCase { expr: e, r, h }
+    })
+}
+
 pub fn run_check(ctx: &Ctx) {
-    ctx.set_rule("all operator sequences over + - * / ^ up to the stated length x all binary tree shapes (Catalan), operands from fixed pools, each AST rendered in 32 ways (minimal / full / two redundant parenthesisations x 8 blank layouts incl. no blanks where allowed, double blanks, tabs, leading/trailing blanks; the random layouts spell the power operator `**` half of the time); plus `to`/round/floor/ceil variants (also with three-digit digits arguments), random deeper trees and long flat expressions of 30-130 terms mixing calls and parenthesised groups; oracle = reference evaluation of the AST; non-trivial = operators of >=2 precedence levels, or a grouped right operand, or nested parentheses, or a non-canonical rendering; distinct by query text");
+    ctx.set_rule("all operator sequences over + - * / ^ up to the stated length x all binary tree shapes (Catalan), operands from fixed pools, each AST rendered in 32 ways (minimal / full / two redundant parenthesisations x 8 blank layouts incl. no blanks where allowed, double blanks, tabs, leading/trailing blanks; the random layouts spell the power operator `**` half of the time); plus `to`/round/floor/ceil variants (also with three-digit digits arguments), random deeper trees long flat expressions of 30-130 terms mixing calls and parenthesised groups, and expressions nested 20-150 levels deep in parentheses and calls; oracle = reference evaluation of the AST; non-trivial = operators of >=2 precedence levels, or a grouped right operand, or nested parentheses, or a non-canonical rendering; distinct by query text");
     ctx.assume("blank policy: + - and `to` always have a blank on both sides; no blank is omitted next to a unit or phrase (a blank next to * or / ends a unit expression in this grammar)");
     let corpus: Vec<(String, QCase)> = load_corpus("C06");
     let cases: Vec<QCase> = corpus.into_iter().map(|c| c.1).collect();
@@ -349,6 +368,19 @@ pub fn run_check(ctx: &Ctx) {
     ctx.run_gen(
         "long-flat",
         long_flat,
+        n / 40,
+        |c| match make_case(&c.expr, c.r, c.h) {
+            Some(q) => judge(shared_db(), &q),
+            None => CaseReport::discard("", "reference-unspecified"),
+        },
+        |c| match make_case(&c.expr, c.r, c.h) {
+            Some(q) => to_json(&q),
+            None => Value::Null,
+        },
+    );
+    ctx.run_gen(
+        "deep-nesting",
+        deep_nesting,
         n / 40,
         |c| match make_case(&c.expr, c.r, c.h) {
             Some(q) => judge(shared_db(), &q),
